@@ -227,7 +227,7 @@ func runEntry(prog *ssa.Program, pkgs []*ssa.Package, entry, pkgPath string, pm 
 		return &Result{Entry: entry, Verdict: "inconclusive", Reasons: []string{"entry function not found"}}
 	}
 	c := Config{Unwind: o.unwind, MaxSteps: o.maxSteps, MaxPaths: o.maxPaths, MaxAlloc: o.maxAlloc, QTimeoutMs: o.qtimeout,
-		Solver: o.solver, Workers: o.workers, Params: pm, MapPerm: o.mapperm, FPReal: o.fpreal, ConcOff: o.concoff,AppendSlack: o.slack, Verbose: o.verbose,
+		Solver: o.solver, Workers: o.workers, Params: pm, MapPerm: o.mapperm, FPReal: o.fpreal, ConcOff: o.concoff, AllowUnwind: strings.Contains(","+o.allowEnds+",", ",unwind,"),AppendSlack: o.slack, Verbose: o.verbose,
 		MaxViol: o.maxViol, SolverLog: o.slog}
 	if o.deadline > 0 {
 		c.Deadline = time.Now().Add(time.Duration(o.deadline) * time.Second)
